@@ -10,7 +10,9 @@ from props import common as K
 
 META = {
     "level": "other",
-    "technique": "static analysis of type-checked MIR (rustc_private driver): boundary-inclusive guard polarity, abstract-interpretation pivot tables, decoder-shape and digits-only must-pass rules, constructor tables",
+    "technique": "static analysis of type-checked MIR (rustc_private driver): boundary-inclusive guard polarity, abstract-interpretation pivot tables, decoder-shape and digits-only must-pass rules, constructor tables; "
+                 "spelling-independent second readings (order tables over all weak orderings, canonical Some/Ok/Single payload terms, "
+                 "year evaluated for all 100 two-digit values, format templates decoded, anchors found by behaviour)",
     "explanation": "Validity window guards (boundary-inclusive) and Validity::trim provenance; encoder/decoder pivot agreement "
                    "(UTCTime ⇔ 1950..=2049 by abstract interpretation; two-digit years ≥ 50 → 19yy else 20yy in both "
                    "decoder copies); decoder shape (exactly six fixed-width fields, 'Z', every other tag fails, from_parts "
@@ -85,7 +87,10 @@ def run(ctx):
         ok = len(parts) == 6 and re.match(first, parts[0]) is not None and parts[1:] == want_rest
         # what is written, read off the format template(s): the values in the order the template uses them (a captured
         # `{name}` argument, several write! calls in a row), each zero-padded to its fixed width, then 'Z'
-        script = _format_script(f, wb)
+        try:
+            script = _format_script(f, wb)
+        except Exception:               # an unexpected template: judged by the argument tuple alone
+            script = None
         if script is not None:
             w0 = 2 if ty == "UtcTime" else 4
             first2 = first[:-1].replace("^Rem", "^(Rem|\\w*::?rem_euclid)") + "$"
@@ -198,7 +203,10 @@ def run(ctx):
         # ok_or / map / and_then chains, parameter pattern), every value returned as Ok is
         # Time(<Some-payload of and_hms_opt(<Single-payload of ymd_opt(y, m, d)>, h, m, s)>) of the six parts in order —
         # a payload can only be had on the branch where the variant is the one named
-        forms = _Canon(f, fp).success_forms()
+        try:
+            forms = _Canon(fd, fp).success_forms()
+        except Exception as e:          # the second reading is optional: the verdict then rests on the first alone
+            forms = ["<%s: %s>" % (type(e).__name__, e)]
         okc = bool(forms) and all(any(rx.match(v) for rx in _CALENDAR_FORMS) for v in forms)
         key = "Time::from_parts" if fp.name == X + "Time::from_parts" else short(fp.name)
         ctx.ob("R-GRD", "%s:real-date" % key, okd or okc,
@@ -429,7 +437,7 @@ class _Readers:
         self.guarded = set()
         self.used = set()
         self.why = {}
-        rx = re.compile(r"^std::result::Result<(%s), bcder::decode::DecodeError<" % "|".join(_INT_TYS))
+        rx = re.compile(r"^std::result::Result<(%s), " % "|".join(_INT_TYS))
         for n, b in f.bodies.items():
             if not n.startswith(X) or "{closure" in n or "{constant" in n or not _in_x509(b) or not rx.match(b.ret_ty or ""):
                 continue
@@ -625,6 +633,7 @@ def _each_octet_is_digit(f, b, readers):
         if not readers.digits_only_fn(c.res):
             return False, "%s is not digits-only" % short(c.res)
     rets = oc.returns()
+    thr = _threaded_succs(b)
     for c in takes:
         cuts = {"digit": set(), "lo": set(), "hi": set()}
         for bi, blk in enumerate(b.blocks):
@@ -647,7 +656,11 @@ def _each_octet_is_digit(f, b, readers):
                                 if v == 1:
                                     cuts["digit"].add((bi, tb))
         def cut(edges):
-            return bool(edges) and b.path(0, rets, set(oc.fail_blocks), edges) is None
+            # once the octet is taken, neither a success return nor the next octet is reached without the test
+            if not edges:
+                return False
+            seen = _reach(thr, thr.get(c.bb, ()), set(oc.fail_blocks), edges)
+            return not (seen & set(rets)) and c.bb not in seen
         if cut(cuts["digit"]) or (cut(cuts["lo"]) and cut(cuts["hi"])):
             continue
         # the value is only used as the payload of to_digit(10)? (ok_or / `?` on it)
@@ -1518,6 +1531,8 @@ def _resolve(t, defs):
     def one(x):
         if x[0] == "field" and x[1][0] in ("var", "mvar") and (x[1][2], str(x[2])) in defs:
             return defs[(x[1][2], str(x[2]))]       # a field assigned on this path
+        if x[0] == "field" and x[1][0] in ("var", "mvar") and x[1][2] in defs:
+            return ("field", defs[x[1][2]], x[2], x[3] if len(x) > 3 else None)     # a field not touched since
         if x[0] in ("var", "mvar") and x[2] in defs:
             over = tuple((fl, v) for (l2, fl), v in ((k2, v2) for k2, v2 in defs.items() if isinstance(k2, tuple)) if l2 == x[2])
             if over:
@@ -1756,3 +1771,63 @@ def _decoder_view(f):
     except AttributeError:
         pass
     return v
+
+
+def _threaded_succs(b):
+    """Successor map of b in which a block that sets a boolean temporary to a constant and runs straight into the
+    branch on that temporary (`matches!(..)`, `a && b` as a value) continues where the branch goes for that constant."""
+    succ = {bi: list(b.succs(bi)) for bi in range(len(b.blocks))}
+    defs = b.defs()
+    for bi, blk in enumerate(b.blocks):
+        t = blk["term"]
+        if t["t"] != "switch" or t.get("dty") != "bool" or blk.get("cleanup"):
+            continue
+        op = t["discr"]
+        pl = op.get("m") or op.get("c")
+        if not pl or pl["p"] or blk["stmts"] and any(st["s"] == "assign" for st in blk["stmts"]):
+            continue
+        l = pl["l"]
+        ds = defs.get(l, [])
+        if len(ds) < 2 or not all(d[2] == "assign" and d[3]["rv"]["r"] == "use" and "k" in d[3]["rv"]["op"] and
+                                  isinstance(d[3]["rv"]["op"]["k"].get("v"), (bool, int)) for d in ds):
+            continue
+        e = switch_bool_edges(b, bi)
+        if e is None:
+            continue
+        for d in ds:
+            v = int(d[3]["rv"]["op"]["k"]["v"])
+            # straight line from the definition to the branch?
+            cur, ok, hops = d[0], True, 0
+            if d[1] != len(b.blocks[cur]["stmts"]) - 1 and any(st["s"] == "assign" and st["pl"]["l"] == l
+                                                                for st in b.blocks[cur]["stmts"][d[1] + 1:]):
+                continue
+            while True:
+                tt = b.blocks[cur]["term"]
+                if tt["t"] != "goto":
+                    ok = False
+                    break
+                cur = tt["target"]
+                hops += 1
+                if cur == bi:
+                    break
+                if hops > 6 or any(st["s"] == "assign" for st in b.blocks[cur]["stmts"]):
+                    ok = False
+                    break
+            if ok:
+                succ[d[0]] = [e[1] if v else e[0]]
+    return succ
+
+
+def _reach(succ, starts, removed_blocks=(), removed_edges=()):
+    seen = set()
+    work = [x for x in starts if x not in removed_blocks]
+    while work:
+        x = work.pop()
+        if x in seen:
+            continue
+        seen.add(x)
+        for y in succ.get(x, ()):
+            if y in removed_blocks or (x, y) in removed_edges or y in seen:
+                continue
+            work.append(y)
+    return seen
